@@ -5,6 +5,7 @@ from __future__ import annotations
 import onnx_ir as ir
 
 from onnxscript.rewriter import _fusion_utils, _ir_utils, pattern
+from onnxscript.rewriter._pattern_ir import Constant
 
 """
 Layer Normalization fusion optimization.
@@ -51,7 +52,8 @@ class LayerNormFusion(pattern.RewriteRuleClassBase):
         deviation_squared = pattern.OrValue(
             [
                 op.Mul(deviation, deviation),
-                op.Pow(deviation, 2),
+                # the exponent must be exactly 2: Pow(d, 2.00001) is NaN for negative d
+                op.Pow(deviation, Constant(2, rel_tol=0.0, abs_tol=0.0)),
             ]
         )
 
